@@ -672,7 +672,13 @@ impl<'a> Run<'a> {
 
 fn weight(l: &[i64], done: usize, target: usize) -> u64 {
     match l[0] {
-        0 => 26,
+        0 => {
+            if l[3] == 1 {
+                5
+            } else {
+                26
+            }
+        }
         7 => 40,
         1 => 10,
         2 => 30,
@@ -687,7 +693,7 @@ fn weight(l: &[i64], done: usize, target: usize) -> u64 {
             if done > target {
                 60
             } else {
-                5
+                7
             }
         }
         _ => 1,
